@@ -33,24 +33,28 @@ import (
 //
 // Oracle: the call returns a stanza.Error whose type and condition are the ones sent.
 type nsConf struct {
-	tok  string // "" for the default
-	ns   string
-	nocb bool // the application has set neither HandleInvite nor HandleUserPresence
+	tok   string // "" for the default
+	ns    string
+	nocb  bool // the application has set neither HandleInvite nor HandleUserPresence
+	late  bool // (round F) the callbacks are assigned AFTER the Client was registered with the multiplexer
+	multi bool // (round F) the Client serves two live sessions; channel c lives on session c%2
 }
 
 var nsConfs = map[byte]nsConf{
-	'c': {"", "jabber:client", false},
-	's': {"%s", "jabber:server", false},
-	'a': {"%a", "jabber:component:accept", false},
+	'c': {tok: "", ns: "jabber:client"},
+	's': {tok: "%s", ns: "jabber:server"},
+	'a': {tok: "%a", ns: "jabber:component:accept"},
 }
 
-// splitConf takes the configuration token off a schedule.
+// splitConf takes the configuration token off a schedule: %<ns><flags>, flags out of
+// n (a muc.Client without callbacks), l (callbacks assigned after registration), m (two sessions).
 func splitConf(sched []string) (nsConf, []string) {
-	// %<ns> or %<ns>n (n: a muc.Client without callbacks)
-	if len(sched) > 0 && len(sched[0]) >= 2 && len(sched[0]) <= 3 && sched[0][0] == '%' {
-		if c, ok := nsConfs[sched[0][1]]; ok && (len(sched[0]) == 2 || sched[0][2] == 'n') {
-			if len(sched[0]) == 3 {
-				c.nocb, c.tok = true, sched[0]
+	if len(sched) > 0 && len(sched[0]) >= 2 && len(sched[0]) <= 5 && sched[0][0] == '%' {
+		if c, ok := nsConfs[sched[0][1]]; ok && strings.Trim(sched[0][2:], "nlm") == "" {
+			fl := sched[0][2:]
+			c.nocb, c.late, c.multi = strings.Contains(fl, "n"), strings.Contains(fl, "l"), strings.Contains(fl, "m")
+			if fl != "" {
+				c.tok = sched[0]
 			}
 			return c, sched[1:]
 		}
@@ -196,13 +200,17 @@ func randReply(rnd *common.Rand) string {
 }
 
 func randConf(rnd *common.Rand) []string {
-	switch rnd.Intn(8) {
+	switch rnd.Intn(10) {
 	case 0:
 		return []string{"%s"}
 	case 1:
 		return []string{"%a"}
 	case 2:
 		return []string{"%" + string("csa"[rnd.Intn(3)]) + "n"}
+	case 3:
+		return []string{"%" + string("csa"[rnd.Intn(3)]) + "l"} // callbacks assigned after registration
+	case 4:
+		return []string{"%" + string("ccsa"[rnd.Intn(4)]) + []string{"m", "lm", "m", "nm"}[rnd.Intn(4)]} // one Client, two sessions
 	}
 	return nil
 }
